@@ -359,6 +359,22 @@ def run_shard(spec):
                         ("sent_data_missing_on_resolve" if less and not more else "sent_data_differs_from_fresh_equivalent")
                     V(key, "solve #%d sends %d objects, a freshly built equivalent model sends %d (%d extra, %d missing) after edits %s"
                       % (k_solve, len(keys), len(fs["keys"]), more, less, kinds), solve_index=k_solve, **wit)
+                # what the back-end itself ends up holding must not grow either (constraints / variables kept from earlier solves)
+                try:
+                    w_ = rec.get("wrapper")
+                    if type(w_).__name__ == "CvxpyWrapper" and fs.get("solver_problem_size") and w_.prob is not None:
+                        # (the vector of function values has one entry per leaf expression ever created on the object, objective
+                        #  leaves of earlier solves included: those idle entries are left out of the comparison)
+                        mine = {"constraints": len(w_.prob.constraints),
+                                "scalar_variables": int(sum(v_.size for v_ in w_.prob.variables())) - int(rec.get("n_exprs") or 0)}
+                        theirs = dict(fs["solver_problem_size"])
+                        theirs["scalar_variables"] = theirs["scalar_variables"] - int(fs.get("n_exprs") or 0)
+                        counters["solver_problem_sizes_compared"] = counters.get("solver_problem_sizes_compared", 0) + 1
+                        if mine != theirs and ca == cb:
+                            V("solver_problem_grows_with_solves", "solve #%d: the cvxpy problem holds %s, the one of a freshly built equivalent "
+                              "model holds %s (function-value entries not counted)" % (k_solve, mine, theirs), solve_index=k_solve, **wit)
+                except Exception:
+                    pass
                 if rec.get("n_points") != fs.get("n_points"):
                     V("gram_size_differs_from_fresh_equivalent", "Gram size %s vs %s in the fresh equivalent" % (rec.get("n_points"), fs.get("n_points")),
                       solve_index=k_solve, **wit)
